@@ -307,6 +307,26 @@ def check_depth_sort(ck: Check, repo: Repo, r) -> None:
                 ["toml", "path", "found"])
     filt = bind is not None
     acc = bind["found"] if bind else "found"
+    if not filt:
+        # the same filter written as a comprehension: acc = [t for t in self.reuse_tomls if P.is_relative_to(t.directory)]
+        from ..rules import single_assign_value
+        p0 = fn.args.args[1].arg if len(fn.args.args) > 1 else "path"
+        for st in fn.body:
+            if isinstance(st, (ast.Assign, ast.AnnAssign)) and isinstance(st.value, ast.ListComp) and len(st.value.generators) == 1:
+                g = st.value.generators[0]
+                tgt = st.targets[0] if isinstance(st, ast.Assign) else st.target
+                if not (isinstance(g.target, ast.Name) and isinstance(tgt, ast.Name) and ast.unparse(g.iter) == "self.reuse_tomls"
+                        and ast.unparse(st.value.elt) == g.target.id and len(g.ifs) == 1):
+                    continue
+                c = g.ifs[0]
+                if isinstance(c, ast.Call) and isinstance(c.func, ast.Attribute) and c.func.attr == "is_relative_to" and len(c.args) == 1 \
+                        and ast.unparse(c.args[0]) == f"{g.target.id}.directory":
+                    recv = c.func.value
+                    if isinstance(recv, ast.Name) and recv.id != p0:
+                        recv = single_assign_value(fn, recv.id) or recv
+                    if ast.unparse(recv) in (p0, f"PurePath({p0})", f"Path({p0})"):
+                        filt = True
+                        acc = tgt.id
     def depth_key(call: ast.Call) -> bool:
         """key=lambda t: t.directory.parts (or its length): orders by depth of the REUSE.toml's directory."""
         key = next((kw.value for kw in call.keywords if kw.arg == "key"), None)
